@@ -1,4 +1,5 @@
 import Txtpp.Lemmas.PathNameFacts
+import Txtpp.Lemmas.CliFacts
 import Txtpp.Lemmas.SeenClosure
 import Txtpp.Lemmas.Hermetic
 import Txtpp.Lemmas.ScanSpec
@@ -111,5 +112,14 @@ theorem dot_components_do_not_matter (fs : Txt.FS) (cur : Txt.Path) (cs : List (
 theorem down_and_up_is_identity (fs : Txt.FS) (cur : Txt.Path) (c : List Char) (cs : List (List Char)) (h : fs.isDir cur = true)
     (hc : fs.isDir (cur ++ [c]) = true) (h1 : c ≠ []) (h2 : c ≠ Txt.dot) (h3 : c ≠ Txt.dotdot) :
     fs.walk cur (c :: Txt.dotdot :: cs) = fs.walk cur cs := Txt.walk_down_up fs cur c cs h hc h1 h2 h3
+
+/-- entry layer: the inputs and the recursion flag of the run are those of the command that runs -/
+theorem cli_inputs_and_recursion (p : Txt.CliParsed) :
+    (p.sub = none → p.config.inputs = p.flags.inputs ∧ p.config.recursive = p.flags.recursive) ∧
+    (∀ f, p.sub = some (.clean f) → p.config.inputs = f.inputs ∧ p.config.recursive = f.recursive) ∧
+    (∀ f b, p.sub = some (.verify f b) → p.config.inputs = f.inputs ∧ p.config.recursive = f.recursive) :=
+  ⟨fun h => ⟨(Txt.build_mode p h).2.2.1, (Txt.build_mode p h).2.1⟩,
+   fun f h => ⟨(Txt.clean_mode p f h).2.2.1, (Txt.clean_mode p f h).2.1⟩,
+   fun f b h => ⟨(Txt.verify_mode p f b h).2.2.1, (Txt.verify_mode p f b h).2.1⟩⟩
 
 end C11
